@@ -220,6 +220,10 @@ class CallMixin:
 
     def call_function(self, fn: VFunc, args, kwargs):
         node = fn.node
+        # a nested function under contract (a closure): used through its contract -- also for its own recursive calls (partial correctness)
+        ncc = self.nested_contract(node)
+        if ncc is not None:
+            return self.call_closure_by_contract(ncc, node, args, kwargs, fn.frame)
         if self.depth > MAX_DEPTH:
             raise E.Unsupported(f"inlining depth exceeded at {fn.name}")
         dframe = fn.frame if fn.frame is not None else E.Frame(fn.relpath, fn.ci)
@@ -242,6 +246,9 @@ class CallMixin:
         finally:
             self.depth -= 1
         return NONE
+
+    def nested_contract(self, node):
+        return None
 
     def call_method(self, recv, name, args, kwargs, node=None, frame=None):
         recv = self.force(recv)
